@@ -274,8 +274,9 @@ class Engine(ExprMixin, CallMixin, StmtMixin):
         self.loop_ordinal = {id(l): i + 1 for i, l in enumerate(loops_in_order(node))}
         for li in c.loops:
             if li > len(self.loop_ordinal):
-                raise SpecError(f"{c.key}: contract gives an invariant for loop {li} but the function has "
-                                f"{len(self.loop_ordinal)} loops")
+                # the loop the invariant describes is gone (the function was restructured): undecided, not a checker error
+                raise Unsupported(f"{c.key}: contract gives an invariant for loop {li} but the function has "
+                                  f"{len(self.loop_ordinal)} loops")
         self.loop_counter = 0
         # sidecar cut points: (statement kind, ordinal in source order) -> cut
         self.cut_at = {}
@@ -305,7 +306,8 @@ class Engine(ExprMixin, CallMixin, StmtMixin):
                         self.cut_at[id(s_)] = cut
             for cut in c.cuts:
                 if not any(v is cut for v in self.cut_at.values()):
-                    raise SpecError(f"{c.key}: cut point {cut['at']} does not exist in the function")
+                    # the statement the cut is anchored at is gone (the function was restructured): undecided
+                    raise Unsupported(f"{c.key}: cut point {cut['at']} does not exist in the function")
         is_async = isinstance(node, ast.AsyncFunctionDef)
         st = self.init_state(c, node)
         entry = st
